@@ -265,12 +265,49 @@ impl<'tcx> Cx<'tcx> {
             match v {
                 ConstValue::ZeroSized => o.push(("zst", J::Bool(true))),
                 ConstValue::Scalar(sc) => o.push(("scalar", s(format!("{:?}", sc)))),
-                _ => o.push(("dbg", s(format!("{:?}", c)))),
+                _ => {
+                    if let Some(j) = self.destructure(v, ty, 0) {
+                        o.push(("value", j));
+                    } else {
+                        o.push(("dbg", s(format!("{:?}", c))));
+                    }
+                }
             }
         } else {
             o.push(("dbg", s(format!("{:?}", c))));
         }
         J::Obj(o)
+    }
+
+    // Aggregate constants (tuples / structs / enums) as a tree of scalars.
+    fn destructure(&self, v: ConstValue, ty: Ty<'tcx>, depth: usize) -> Option<J> {
+        if depth > 4 {
+            return None;
+        }
+        if let ConstValue::Scalar(mir::interpret::Scalar::Int(si)) = v {
+            let size = si.size();
+            return Some(J::Obj(vec![("ty", s(ty_str(ty))), ("bits", s(si.to_bits(size).to_string()))]));
+        }
+        if !matches!(ty.kind(), ty::Adt(..) | ty::Tuple(..) | ty::Array(..)) {
+            return None;
+        }
+        let d = self.tcx.try_destructure_mir_constant_for_user_output(v, ty)?;
+        let mut fields = vec![];
+        for (fv, fty) in d.fields.iter() {
+            match self.destructure(*fv, *fty, depth + 1) {
+                Some(j) => fields.push(j),
+                None => fields.push(J::Obj(vec![("ty", s(ty_str(*fty))), ("unknown", J::Bool(true))])),
+            }
+        }
+        let mut o: Vec<(&'static str, J)> = vec![("ty", s(ty_str(ty)))];
+        if let Some(vi) = d.variant {
+            o.push(("variant", n(vi.as_usize())));
+            if let ty::Adt(adt, _) = ty.kind() {
+                o.push(("vname", s(adt.variant(vi).name.to_string())));
+            }
+        }
+        o.push(("fields", J::Arr(fields)));
+        Some(J::Obj(o))
     }
 
     fn operand(&self, op: &Operand<'tcx>) -> J {
